@@ -125,6 +125,28 @@ func genPurity(repo, out string) {
 			return true
 		})
 	}
+	// accumulator parameters: `append(dst, …)` onto a slice PARAMETER is the idiom of a function that
+	// extends the caller's own accumulator and hands it back.  Such a site is dropped when every call
+	// of the function in the evaluation code passes, in that position, a slice the caller made itself
+	// (a local that never aliases the caller's inputs, nil, a literal) or its own accumulator parameter.
+	type accKey struct {
+		fn    string // bare function / method name
+		param int
+	}
+	accSites := map[accKey][]string{}
+	everTainted := map[*ast.FuncDecl]map[string]bool{}
+	paramIndex := func(fd *ast.FuncDecl, name string) int {
+		i := 0
+		for _, fl := range fd.Type.Params.List {
+			for _, n := range fl.Names {
+				if n.Name == name {
+					return i
+				}
+				i++
+			}
+		}
+		return -1
+	}
 	for _, af := range parsed {
 		for _, d := range af.Decls {
 			fd, ok := d.(*ast.FuncDecl)
@@ -134,6 +156,7 @@ func genPurity(repo, out string) {
 			if !scope[fd] {
 				continue
 			}
+			everTainted[fd] = map[string]bool{}
 			name := fd.Name.Name
 			if r := recvName(fd); r != "" {
 				name = r + "." + name
@@ -143,12 +166,14 @@ func genPurity(repo, out string) {
 				for _, fl := range fd.Recv.List {
 					for _, n := range fl.Names {
 						tainted[n.Name] = true
+						everTainted[fd][n.Name] = true
 					}
 				}
 			}
 			for _, fl := range fd.Type.Params.List {
 				for _, n := range fl.Names {
 					tainted[n.Name] = true
+					everTainted[fd][n.Name] = true
 				}
 			}
 			var root func(e ast.Expr) (string, bool) // root identifier and whether the expression can alias it
@@ -216,6 +241,7 @@ func genPurity(repo, out string) {
 									for i, nm := range vs.Names {
 										if i < len(vs.Values) && aliases(vs.Values[i]) {
 											tainted[nm.Name] = true
+											everTainted[fd][nm.Name] = true
 										} else {
 											delete(tainted, nm.Name)
 										}
@@ -230,6 +256,7 @@ func genPurity(repo, out string) {
 								if i < len(x.Rhs) && len(x.Lhs) == len(x.Rhs) {
 									if aliases(x.Rhs[i]) {
 										tainted[id.Name] = true
+										everTainted[fd][id.Name] = true
 									} else if call, ok := x.Rhs[i].(*ast.CallExpr); ok {
 										if f, ok := call.Fun.(*ast.Ident); ok && f.Name == "append" && len(call.Args) > 0 && aliases(call.Args[0]) {
 											// x = append(x, …) keeps aliasing
@@ -244,6 +271,7 @@ func genPurity(repo, out string) {
 								} else if len(x.Rhs) == 1 && i == 0 {
 									if aliases(x.Rhs[0]) {
 										tainted[id.Name] = true // v, ok := p.(T)
+										everTainted[fd][id.Name] = true
 									} else if x.Tok == token.DEFINE {
 										delete(tainted, id.Name)
 									}
@@ -258,6 +286,7 @@ func genPurity(repo, out string) {
 						if aliases(x.X) {
 							if id, ok := x.Value.(*ast.Ident); ok {
 								tainted[id.Name] = true // elements may be pointers / maps / slices of the caller's data
+								everTainted[fd][id.Name] = true
 							}
 						}
 					case *ast.IncDecStmt:
@@ -281,6 +310,7 @@ func genPurity(repo, out string) {
 									for _, pn := range pl.Names {
 										if hasTainted {
 											tainted[pn.Name] = true
+											everTainted[fd][pn.Name] = true
 										} else {
 											delete(tainted, pn.Name)
 										}
@@ -296,7 +326,13 @@ func genPurity(repo, out string) {
 								}
 							case "append":
 								if len(x.Args) > 0 && aliases(x.Args[0]) {
-									sites = append(sites, fmt.Sprintf("%s %s: append onto %s (may write into the caller's spare capacity)", name, pos(x), exprText(x.Args[0])))
+									msg := fmt.Sprintf("%s %s: append onto %s (may write into the caller's spare capacity)", name, pos(x), exprText(x.Args[0]))
+									if id, ok := x.Args[0].(*ast.Ident); ok && paramIndex(fd, id.Name) >= 0 {
+										k := accKey{fd.Name.Name, paramIndex(fd, id.Name)}
+										accSites[k] = append(accSites[k], msg)
+									} else {
+										sites = append(sites, msg)
+									}
 								}
 							case "copy":
 								if len(x.Args) > 0 && aliases(x.Args[0]) {
@@ -313,6 +349,62 @@ func genPurity(repo, out string) {
 					return true
 				})
 			}
+		}
+	}
+	// okParam: every call of fn in the evaluation code passes, at position param, a slice of the
+	// caller's own making — or the caller's own parameter for which the same holds (forwarding)
+	var okParam func(fn string, param int, seen map[accKey]bool) bool
+	okParam = func(fn string, param int, seen map[accKey]bool) bool {
+		k := accKey{fn, param}
+		if seen[k] {
+			return true // a cycle of forwarding: decided by the calls from outside it
+		}
+		seen[k] = true
+		ok, calls := true, 0
+		for caller := range scope {
+			ast.Inspect(caller.Body, func(n ast.Node) bool {
+				c, isCall := n.(*ast.CallExpr)
+				if !isCall {
+					return true
+				}
+				callee := ""
+				switch f := c.Fun.(type) {
+				case *ast.Ident:
+					callee = f.Name
+				case *ast.SelectorExpr:
+					callee = f.Sel.Name
+				}
+				if callee != fn || param >= len(c.Args) {
+					return true
+				}
+				calls++
+				switch a := c.Args[param].(type) {
+				case *ast.Ident:
+					switch {
+					case a.Name == "nil":
+					case paramIndex(caller, a.Name) >= 0:
+						if !okParam(caller.Name.Name, paramIndex(caller, a.Name), seen) {
+							ok = false // the caller hands on one of its own inputs
+						}
+					case everTainted[caller][a.Name]:
+						ok = false
+					}
+				case *ast.CompositeLit:
+				case *ast.CallExpr:
+					if f, isId := a.Fun.(*ast.Ident); !isId || f.Name != "make" {
+						ok = false
+					}
+				default:
+					ok = false
+				}
+				return true
+			})
+		}
+		return ok && calls > 0
+	}
+	for k, msgs := range accSites {
+		if !okParam(k.fn, k.param, map[accKey]bool{}) {
+			sites = append(sites, msgs...)
 		}
 	}
 	sort.Strings(sites)
